@@ -3,9 +3,9 @@
 (* C36 - Stack and GNU property notes are merged as in GNU ld.             *)
 (*                                                                         *)
 (* A scenario is a link command: a sequence of -z execstack/noexecstack    *)
-(* options and a few inputs (bounded by a profile).  Every input has a    *)
-(* kind (plain object,                                                     *)
-(* archive member that is / is not extracted, shared object), a            *)
+(* options and a few inputs (bounded by a profile).  Every input has a     *)
+(* kind (plain object, archive member that is / is not extracted, shared   *)
+(* object), a                                                              *)
 (* .note.GNU-stack state (section absent / present non-executable /        *)
 (* present with SHF_EXECINSTR) and, for every property type of the         *)
 (* scenario, the sequence of 4-byte pr_data values it carries in its       *)
@@ -26,7 +26,7 @@
 (* args.execstack).                                                        *)
 (*                                                                         *)
 (* TLC checks that the two agree on every scenario in which wild produces  *)
-(* an output, outside two exactly characterised deviation classes that     *)
+(* an output, outside three exactly characterised deviation classes that     *)
 (* were reproduced against the real binaries and are recorded as findings. *)
 (* Every terminal state is printed as a REPLAY record (scenario + both     *)
 (* predictions); harness/py/checks/c36.py replays them into the real wild  *)
@@ -166,10 +166,23 @@ GnuProp(s, t) ==
       vals == {InVal(In(s, i), t) : i \in {j \in L : Has(In(s, j), t)}}
       or   == UNION vals
       and  == InterAll(vals)
-  IN CASE GnuClass(t) = "and"   -> IF all /\ and # {} THEN Present(and) ELSE Absent
-       [] GnuClass(t) = "or"    -> IF or # {} THEN Present(or) ELSE Absent
-       [] GnuClass(t) = "orand" -> IF all THEN Present(or) ELSE Absent
+  IN IF t[1] = "gen" /\ Cardinality(L) = 1
+     THEN \* quirk of GNU ld 2.40 (pinned by running it): the generic UINT32_AND/OR properties are only
+          \* cleaned up while two inputs are merged; with a single relocatable input the property is
+          \* copied as it is, even when all bits are zero (the x86 backend removes those itself).
+          IF all THEN Present(or) ELSE Absent
+     ELSE CASE GnuClass(t) = "and"   -> IF all /\ and # {} THEN Present(and) ELSE Absent
+            [] GnuClass(t) = "or"    -> IF or # {} THEN Present(or) ELSE Absent
+            [] GnuClass(t) = "orand" -> IF all THEN Present(or) ELSE Absent
 GnuProps(s) == [t \in s.types |-> GnuProp(s, t)]
+
+(* What the property requires of the output note: the bits GNU ld's note carries.  An AND- or
+   OR-class property whose bits are all zero says the same as no property (and the psABI wants it
+   removed), so the quirk above is not required of wild; an OR-AND-class property with all bits zero
+   is different from an absent one and is required as it is. *)
+Want(s, t) ==
+  LET g == GnuProp(s, t) IN IF GnuClass(t) # "orand" /\ g.val = {} THEN Absent ELSE g
+WantProps(s) == [t \in s.types |-> Want(s, t)]
 
 -----------------------------------------------------------------------------
 (* OPERATIONAL: wild.                                                        *)
@@ -318,25 +331,30 @@ StackDeviationExact ==
   Linked /\ StackDeviation(scn) => (outStack = "RW" /\ GnuStackExec(scn))
 
 AgreeProps ==
-  Linked => \A t \in scn.types : ~DupDeviation(scn, t) => outProps[t] = GnuProp(scn, t)
+  Linked => \A t \in scn.types : ~DupDeviation(scn, t) => outProps[t] = Want(scn, t)
 
 (* with duplicates wild can only lose bits relative to GNU ld *)
 DupDeviationShape ==
   Linked => \A t \in scn.types : DupDeviation(scn, t) =>
-     /\ outProps[t].val \subseteq GnuProp(scn, t).val
-     /\ (outProps[t].present => GnuProp(scn, t).present)
+     /\ outProps[t].val \subseteq Want(scn, t).val
+     /\ (outProps[t].present => Want(scn, t).present)
+
+(* Deviation class 3 (finding prop:x86-compat-isa-unclassified): the two legacy x86 types
+   GNU_PROPERTY_X86_COMPAT_ISA_1_USED / _NEEDED are merged by GNU ld and rejected by wild
+   ("unclassified property type"). *)
+LegacyType(t) == t[1] = "x86" /\ t[2] \in {0, 1}
 
 (* wild declines exactly: an executable stack requested by a loaded input without an effective
-   -z execstack, or (otherwise) a property type it does not classify. *)
+   -z execstack (the documented rejection), or (otherwise) a legacy type in a loaded input. *)
 DeclineExact ==
   Done =>
     /\ (declined = "execstack") <=> (AnyExec(scn) /\ ZMode(scn.z) # "execstack")
     /\ (declined = "unclassified") <=>
           (/\ ~(AnyExec(scn) /\ ZMode(scn.z) # "execstack")
-           /\ \E t \in scn.types : WildClass(t) = "none" /\ \E i \in Loaded(scn) : Has(In(scn, i), t))
+           /\ \E t \in scn.types : LegacyType(t) /\ \E i \in Loaded(scn) : Has(In(scn, i), t))
 
 ClassesAgree ==
-  \A t \in TypeUniverse : WildClass(t) # "none" => WildClass(t) = GnuClass(t)
+  \A t \in TypeUniverse : ~LegacyType(t) => WildClass(t) = GnuClass(t)
 
 Termination == <>Done
 
@@ -362,6 +380,7 @@ ReplayRec ==
    types |-> LET o == TypeOrder(scn.types) IN [k \in DOMAIN o |-> [fam |-> o[k][1], off |-> o[k][2], cls |-> GnuClass(o[k])]],
    gnu_stack |-> GnuStack(scn),
    gnu_props |-> PropList(GnuProps(scn), scn.types),
+   want_props |-> PropList(WantProps(scn), scn.types),
    wild_declined |-> declined,
    wild_stack |-> outStack,
    wild_props |-> PropList(outProps, scn.types),
